@@ -424,6 +424,7 @@ package jd
 //@   carries C13 C10
 
 //@ contract readMergeInto
+//@   noretain p
 //@   requires validDiff(d) && validPath(p) && validNode(n)
 //@   ensures validDiff(ret0)
 //@   loop "range n" invariant forallInt(0, len(keys), func(i int) bool { return mapHas(n, keys[i]) })
